@@ -10,6 +10,26 @@ pub open spec fn enc_u32(x: u32) -> Seq<u8> {
     spec_u32_to_le_bytes(x)
 }
 
+pub open spec fn enc_u16(x: u16) -> Seq<u8> {
+    spec_u16_to_le_bytes(x)
+}
+
+#[verifier::external_body]
+pub fn vx_u16_from_le(b: [u8; 2]) -> (r: u16)
+    ensures
+        r == spec_u16_from_le_bytes(b@),
+{
+    u16::from_le_bytes(b)
+}
+
+#[verifier::external_body]
+pub fn vx_u16_to_le(x: u16) -> (r: [u8; 2])
+    ensures
+        r@ == spec_u16_to_le_bytes(x),
+{
+    x.to_le_bytes()
+}
+
 // `u64::from_le_bytes` / `to_le_bytes` (array length is a const expression Verus cannot name): T4
 #[verifier::external_body]
 pub fn vx_u64_from_le(b: [u8; 8]) -> (r: u64)
